@@ -325,7 +325,11 @@ func rulesC05Lib(w *World, r *Report) {
 			}
 			if base, fname, ok := fieldAddrOf(st.Addr); ok && fname == "header" && namedTypeName(base.Type()) == "Whisper" {
 				nStores++
-				r.Check(hdrWriters[funcName(f)], "C05.R5", "header-store:"+funcName(f), w.instrPos(st),
+				// initialising the header field of a handle that is being constructed (fresh allocation in Open/Create) is not
+				// a change of an existing handle's header
+				_, fresh := base.(*ssa.Alloc)
+				okStore := hdrWriters[funcName(f)] || (fresh && (funcName(f) == "whispertool.Open" || funcName(f) == "whispertool.Create"))
+				r.Check(okStore, "C05.R5", "header-store:"+funcName(f), w.instrPos(st),
 					"header set by a constructor", "Whisper.header is overwritten in "+funcName(f))
 			}
 		})
